@@ -9,6 +9,7 @@ mod frame;
 mod cmd;
 mod song;
 mod filter;
+mod commands;
 mod tags;
 mod util;
 
@@ -35,6 +36,7 @@ const FAMILIES: &[Family] = &[
     Family { name: "cmd", gen: cmd::gen, exec: cmd::exec },
     Family { name: "song", gen: song::gen, exec: song::exec },
     Family { name: "filter", gen: filter::gen, exec: filter::exec },
+    Family { name: "commands", gen: commands::gen, exec: commands::exec },
 ];
 
 fn main() {
